@@ -195,9 +195,11 @@ class LangServer:
         self.root_path = path_from_uri(
             params.get("rootUri") or params.get("rootPath") or ""
         )
-        self.source_dirs.add(self.root_path)
-
         self._load_config_file()
+        # Without configured source directories all folders under root are searched
+        self.search_root_dirs = not self.source_dirs
+        if self.search_root_dirs:
+            self.source_dirs.add(self.root_path)
         update_recursion_limit(self.recursion_limit)
         self._resolve_globs_in_paths()
         self._config_logger(request)
@@ -1702,9 +1704,7 @@ class LangServer:
         in the configuration file or no configuration file is present
         """
         # Recursively add sub-directories that only match Fortran extensions
-        if len(self.source_dirs) != 1:
-            return None
-        if self.root_path not in self.source_dirs:
+        if not self.search_root_dirs:
             return None
         self.source_dirs = set()
         for root, dirs, files in os.walk(self.root_path):
